@@ -44,7 +44,7 @@ type Spec struct {
 	Procs int
 	// Bubble runs every case inside a testing/synctest bubble (virtual time).
 	Bubble bool
-	// CaseTimeout is the real-time watchdog per case (default 90s). Its firing is
+	// CaseTimeout is the real-time watchdog per case (default 600s). Its firing is
 	// never a property verdict: it yields INCONCLUSIVE unless the process is idle
 	// (no CPU used for 3s while nothing completes), which is reported as a deadlock.
 	CaseTimeout time.Duration
@@ -210,7 +210,7 @@ func Main(t *testing.T, spec Spec) {
 		spec.MinNontrivial = 2
 	}
 	if spec.CaseTimeout == 0 {
-		spec.CaseTimeout = 90 * time.Second
+		spec.CaseTimeout = 600 * time.Second
 	}
 	if os.Getenv("VERIF_CHILD") == "1" {
 		runChild(t, &spec)
